@@ -578,7 +578,7 @@ class TypesGen:
         self.out_ref.append(text)
 
 
-def build_types_units(exp_text, label, unit_prefix, modules=None, crate_root=False, subst=None):
+def build_types_units(exp_text, label, unit_prefix, modules=None, crate_root=False, subst=None, c07=None):
     """returns {'ref': (text, records), 'noref': (text, records)} for one expansion"""
     import gen_verus
     subst = subst or gen_verus.F64_SUBST
@@ -594,6 +594,8 @@ def build_types_units(exp_text, label, unit_prefix, modules=None, crate_root=Fal
     body_noref = '\n'.join(tg.out_noref).replace(f'id={unit_prefix}:', f'id={unit_prefix}_noref:')
     lits = tg.lits.decls()
     text = gen_verus.mark_lemmas(gen_verus.wrap('\n\n'.join(parts + [lits, body_ref])), tg_ref_unit)
+    if c07:
+        out['c07'] = (gen_verus.wrap(c07_text(tg, *c07)), [])
     recs_ref = [dict(r, obligation=r['obligation'].replace(f'{unit_prefix}:', f'{tg_ref_unit}:')) for r in tg.records]
     out['ref'] = (text, em.records + recs_ref)
     if tg.out_noref:
@@ -607,11 +609,128 @@ def build_types_units(exp_text, label, unit_prefix, modules=None, crate_root=Fal
     return out
 
 
+# ---------------- C07: scales against the independent table ----------------
+def si_exponents():
+    import tomllib
+    from common import VERIF
+    with open(os.path.join(VERIF, 'spec', 'si_prefixes.toml'), 'rb') as f:
+        return {p['const']: p['exp'] for p in tomllib.load(f)['prefix']}
+
+
+def c07_text(tg, crate, cfg_kind, decl_map):
+    """Verus text: chained definitions from spec/units.toml + one lemma per unit.
+    cfg_kind: 'f64' | 'dec'.  decl_map: {QtyName: QtyDecl} from the current sources
+    (identifier <-> variant mapping only)."""
+    import spec_tables as ST
+    from common import Undecided
+    tab = ST.Table(crate)
+    out = ['// ===== C07: published definitions (spec/units.toml), chained to the reference unit =====',
+           'pub open spec fn abs_r(x: real) -> real { if x >= 0real { x } else { -x } }']
+    unit = tg.unit.replace('types_', 'c07_')
+    for X, qt in sorted(tg.types.items()):
+        if not qt.has_ref:
+            continue
+        U = qt.unit_enum
+        out.append(f'pub enum {U} {{\n' + ''.join(f'    {v},\n' for v in qt.variants) + '}')
+        out.append(f'// exact rational value of each scale literal of {U}::scale() as written in {tg.label} (same table as scale_value_{X} in the types unit)')
+        out.append(f'pub open spec fn scale_value_{X}(u: {U}) -> real {{\n    match u {{\n' + ''.join(f'        {U}::{v} => {real_of(qt.scale[v])},\n' for v in qt.variants) + '    }\n}')
+    # definition functions for every quantity of the crate that has scales
+    for q, units in tab.data.items():
+        for u, row in units.items():
+            if row.get('def') is None:
+                continue
+            if tab.has_pi(q, u):
+                lo, hi = tab.interval(q, u)
+                out.append(f'pub open spec fn defn_lo_{q}_{u}() -> real {{ {real_of(lo)} }}  // enclosure via pi in [3.14159265358979323846264338327950288419716939937510, ..11]')
+                out.append(f'pub open spec fn defn_hi_{q}_{u}() -> real {{ {real_of(hi)} }}')
+            else:
+                out.append(f'pub open spec fn defn_{q}_{u}() -> real {{ {tab.verus_expr(q, tab.ast(q, u))} }}')
+                # helper: the chained definition evaluates to this constant (hint computed by the
+                # generator, checked by Verus step by step; nonlinear only over named constants)
+                refs = sorted(set(tab.refs(q, u)))
+                val = tab.interval(q, u)[0]
+                calls = ''.join(f'    lemma_defn_{rq}_{ru}();\n' for rq, ru in refs)
+                if refs:
+                    binds = ''.join(f'    let v_{rq}_{ru} = defn_{rq}_{ru}();\n' for rq, ru in refs)
+                    expr = tab.verus_expr(q, tab.ast(q, u))
+                    for rq, ru in refs:
+                        expr = expr.replace(f'defn_{rq}_{ru}()', f'v_{rq}_{ru}')
+                    reqs = ', '.join(f'v_{rq}_{ru} == {real_of(tab.interval(rq, ru)[0])}' for rq, ru in refs)
+                    body = f'{calls}{binds}    assert({expr} == {real_of(val)}) by (nonlinear_arith)\n        requires {reqs};\n'
+                else:
+                    body = ''
+                out.append(f'proof fn lemma_defn_{q}_{u}()\n    ensures defn_{q}_{u}() == {real_of(val)}\n{{\n{body}}}')
+    exps = si_exponents()
+    EPS = Fraction(1, 2 ** 52)
+    for X, qt in sorted(tg.types.items()):
+        if not qt.has_ref:
+            continue
+        if X not in decl_map:
+            raise Undecided(f'C07: type {X} is in the expansion but not declared in the sources read')
+        rows = tab.units(X)
+        declared = {u.variant: u for u in decl_map[X].units}
+        idents = {u.ident for u in decl_map[X].units}
+        if set(rows) != idents:
+            raise Undecided(f'C07: spec/units.toml [{crate}.{X}] and the declared units differ: '
+                            f'only in table {sorted(set(rows) - idents)}, only in source {sorted(idents - set(rows))}')
+        U = qt.unit_enum
+        for v in qt.variants:
+            d = declared.get(v)
+            if d is None:
+                raise Undecided(f'C07: variant {U}::{v} has no declaration')
+            ident = d.ident
+            lit = qt.scale[v]
+            name = f'lemma_C07_scale_{X}_{v}'
+            hdr = f'//@ob id={unit}:{name} props=C07 kind=lemma note=unit:{ident}'
+            if tab.has_pi(X, ident):
+                f64v = Fraction(float(lit))
+                out.append(hdr)
+                lo, hi = tab.interval(X, ident)
+                out.append(f'proof fn {name}()\n    ensures\n        scale_value_{X}({U}::{v}) == {real_of(lit)},\n'
+                           f'        // binary64 value of the literal within one ulp (2^-52 relative) of the enclosure [defn_lo, defn_hi]\n'
+                           f'        defn_lo_{X}_{ident}() == {real_of(lo)}, defn_hi_{X}_{ident}() == {real_of(hi)},\n'
+                           f'        {real_of(lo * (1 - EPS))} <= {real_of(f64v)},\n'
+                           f'        {real_of(f64v)} <= {real_of(hi * (1 + EPS))},\n{{\n}}')
+                continue
+            lo, hi = tab.interval(X, ident)
+            exact_ok = ST.terminating(lo) and ((cfg_kind == 'f64' and ST.sig_digits(lo) <= 17) or (cfg_kind == 'dec' and ST.frac_digits(lo) <= 18))
+            out.append(hdr)
+            if exact_ok:
+                out.append(f'proof fn {name}()\n    ensures scale_value_{X}({U}::{v}) == defn_{X}_{ident}()\n{{\n    lemma_defn_{X}_{ident}();\n}}')
+            elif cfg_kind == 'f64':
+                f64v = Fraction(float(lit))
+                out.append(f'proof fn {name}()\n    ensures\n        scale_value_{X}({U}::{v}) == {real_of(lit)},\n'
+                           f'        // the binary64 value of that literal is {real_of(f64v)}; within one ulp (2^-52 relative) of the definition\n'
+                           f'        abs_r({real_of(f64v)} - defn_{X}_{ident}()) <= {real_of(EPS)} * defn_{X}_{ident}(),\n{{\n    lemma_defn_{X}_{ident}();\n}}')
+            else:
+                out.append(f'proof fn {name}()\n    ensures abs_r(scale_value_{X}({U}::{v}) - defn_{X}_{ident}()) <= (5real / 10000000000000000000real)\n{{\n    lemma_defn_{X}_{ident}();\n}}')
+        # positivity of every scale
+        out.append(f'//@ob id={unit}:lemma_C07_scales_positive_{X} props=C07,C01 kind=lemma')
+        out.append(f'proof fn lemma_C07_scales_positive_{X}(u: {U})\n    ensures scale_value_{X}(u) > 0real\n{{\n}}')
+        # mutual consistency of the SI prefixes (prefix names from the table; K checks si_prefix() against the table)
+        si = [(declared[v].variant, exps[rows[declared[v].ident]['prefix']]) for v in qt.variants if rows[declared[v].ident].get('prefix')]
+        if len(si) >= 2:
+            pv, pe = si[0]
+            clauses = []
+            for v, e in si[1:]:
+                k = e - pe
+                a, b = (10 ** k, 1) if k >= 0 else (1, 10 ** (-k))
+                clauses.append(f'        scale_value_{X}({U}::{v}) * {b}real == scale_value_{X}({U}::{pv}) * {a}real,')
+            out.append(f'//@ob id={unit}:lemma_C07_si_prefixes_consistent_{X} props=C07 kind=lemma')
+            out.append(f'proof fn lemma_C07_si_prefixes_consistent_{X}()\n    ensures\n' + '\n'.join(clauses) + '\n{\n}')
+    return '\n'.join(out) + '\n'
+
+
 if __name__ == '__main__':
     exp = open(sys.argv[1]).read()
-    res = build_types_units(exp, 'expanded:quantities', 'types_q_f64')
+    import decls
+    res = build_types_units(exp, 'expanded:quantities', 'types_q_f64', c07=('quantities', sys.argv[3] if len(sys.argv) > 3 else 'f64', decls.catalogue()))
     open(sys.argv[2] + '_ref.rs', 'w').write(res['ref'][0])
     if 'noref' in res:
         open(sys.argv[2] + '_noref.rs', 'w').write(res['noref'][0])
+    if 'c07' in res:
+        open(sys.argv[2] + '_c07.rs', 'w').write(res['c07'][0])
     print({k: len(v.variants) for k, v in res['gen'].types.items()})
     print(res['gen'].derived)
+
+
